@@ -310,8 +310,8 @@ PROPS = {
     },
     "C15": {
         "title": "Before/after/alternate injection is lowered exactly",
-        "units": ["V4_inject", "V4b_iter_inject", "V11_emit"],
-        "obligations": V11_EMIT + ["V4b_iter_inject.ModuleIterator.*", "V4b_iter_inject.fn:ModuleIterator as *", "V4b_iter_inject.fn:Functions::get_mut"] + ["V4_inject.InstrumentationFlag.*", "V4_inject.fn:InstrumentationFlag::*", "V4_inject.fn:Instruction::add_instr", "V4_inject.LocalFunction.*", "V4_inject.fn:LocalFunction::add_instr", "V4_inject.fn:LocalFunction::clear_instr_at", "V4_inject.fn:Body::clear_instr",
+        "units": ["V4_inject", "V4b_iter_inject", "V11_emit", "V8_lower"],
+        "obligations": V11_EMIT + ["V8_lower.FunctionModifier.init.*", "V8_lower.fn:FunctionModifier::init", "V8_lower.Functions.get_fn_modifier.*", "V8_lower.fn:Functions::get_fn_modifier", "V8_lower.fn:FuncInstrFlag::finish_instr", "V4b_iter_inject.ModuleIterator.*", "V4b_iter_inject.fn:ModuleIterator as *", "V4b_iter_inject.fn:Functions::get_mut"] + ["V4_inject.InstrumentationFlag.*", "V4_inject.fn:InstrumentationFlag::*", "V4_inject.fn:Instruction::add_instr", "V4_inject.LocalFunction.*", "V4_inject.fn:LocalFunction::add_instr", "V4_inject.fn:LocalFunction::clear_instr_at", "V4_inject.fn:Body::clear_instr",
                         "V4_inject.fn:Body::clear_instr", "V4_inject.fn:FunctionModifier as *"],
         "glue": V11_TRUST + ["the rest of Module::encode_internal around the per-instruction loop (which functions are emitted, locals, how instr_len is computed: `instructions.len() - 1` is a precondition of the region) is not under contract",
                  "rule R16: the loop is cut out of encode_internal by a text anchor and wrapped in a declared header; the locals it uses become parameters of the same types"],
